@@ -12,7 +12,47 @@ SCHED_TB = [
     "atomicity of sync.Map operations, sync.Mutex and sync/atomic (Go memory model below the yield points)",
 ]
 
+REDIS_TB = [
+    "Redis/Model.lean is a hand-written model of read.go + the Dissect loop on the remaining bytes; tied to the code "
+    "by the correspondence check (packets, end kind, items)",
+    "bufio.Reader.Read delivers at most one underlying read per call (modelled by Proofs/C08 Win/fill)",
+    "strings.ToUpper modelled for ASCII; strconv.Atoi modelled without overflow",
+]
+
 PROPS = {
+    "C01": dict(
+        proof_modules=["KsVerif.Proofs.C01"],
+        families=["redis.raw"],
+        rule="redis.raw: fixed corpus of inputs that historically broke the reader (each with every two-piece split, "
+             "EOF and reader-error tails), plus seeded: every prefix of well-formed halves, 1-3 byte corruptions with "
+             "boundary values, random bytes, random multi-piece splits; non-trivial = at least 2 bytes; "
+             "AMQP/Kafka/HTTP families are added as their models land",
+        trusted_base=REDIS_TB + LIB,
+        assumptions=["AMQP, Kafka and HTTP dissectors are not yet covered by this check (Redis only in this commit)"],
+    ),
+    "C07": dict(
+        proof_modules=["KsVerif.Proofs.C07"],
+        families=["redis.conv"],
+        rule="redis.conv: conversations from an independent RESP encoder (Go side, cross-checked byte for byte against "
+             "the Lean spec encoder): every command of the regenerated table with 0-3 arguments, then seeded random "
+             "conversations of 1-6 exchanges with values holding CR, LF, CRLF, arbitrary bytes, empty/null bulk, every "
+             "reply type incl. nested/empty arrays and redirections, random segmentations incl. across 8 KiB; "
+             "non-trivial = well-formed by the spec's wfExchange",
+        trusted_base=REDIS_TB + LIB,
+        assumptions=["spec follows the implementation's presentation where the statement is silent: arguments beyond the "
+                     "second are reported as \"[a, b, ...]\", simple strings upper-cased in `keyword`, error replies with a "
+                     "class prefix; array replies must be reported with type Array (content not constrained)"],
+    ),
+    "C08": dict(
+        proof_modules=["KsVerif.Proofs.C08"],
+        families=["redis.split", "redis.convsplit"],
+        rule="redis.split: the same byte streams as redis.raw delivered under every two-piece split (short streams, "
+             "exhaustive) and random multi-piece splits down to single bytes; the observation must equal the one the "
+             "bytes alone determine; redis.convsplit adds random segmentations of well-formed conversations; "
+             "non-trivial = at least two reads",
+        trusted_base=REDIS_TB + LIB,
+        assumptions=["AMQP, Kafka and HTTP read only through io.ReadFull/bufio (to be tied by reader-touch facts)"],
+    ),
     "C09": dict(
         proof_modules=["KsVerif.Proofs.C09"],
         families=["sched.match.redis", "sched.match.http"],
